@@ -243,7 +243,7 @@ class IndexView(Contract):
     def configs(self, tier):
         for (s, n, f) in [(True, 8, 2), (False, 6, 3)]:
             for rule, mode in [('trunc', 'saturate'), ('around', 'wrap')]:
-                for route in ('chained', 'direct', 'tuple_index'):
+                for route in ('chained', 'direct', 'tuple_index', 'column', 'reversed'):
                     yield dict(fmt=[s, n, f], rule=rule, mode=mode, route=route)
                     if mode == 'saturate':
                         yield dict(fmt=[s, n, f], rule=rule, mode=mode, route=route, huge=True)
@@ -262,6 +262,14 @@ class IndexView(Contract):
             y = x[0]
             shares = shares_buffer(y.val, x.val)
             y[1] = inp['v']
+        elif cfg['route'] == 'column':          # a non-contiguous (strided) view
+            y = x[:, 1]
+            shares = shares_buffer(y.val, x.val)
+            y[0] = inp['v']
+        elif cfg['route'] == 'reversed':        # a view with a negative stride
+            y = x[::-1]
+            shares = shares_buffer(y.val, x.val)
+            y[1][1] = inp['v']
         elif cfg['route'] == 'direct':
             x[0][1] = inp['v']; shares = True
         else:
